@@ -44,14 +44,19 @@ def fsMkdirs (p : CPath) : Prog Res := do
   let fs ← read
   if isdirC fs p then pure (.ok ()) else makedirs p.length p 0o777
 
-/-- `atomic_write`: exclusive create (0600), one write, close -/
+/-- `atomic_write`: exclusive create (0600), one write, close (always); when the write or the
+    close fails the file is unlinked again (errors of that unlink are ignored) and the error
+    is re-raised — the close's error if both failed. -/
 def atomicWrite (p : CPath) (content : Bytes) : Prog Res := do
   match ← sys (.createExcl p 0o600) with
   | .error e => pure (.error e)
   | .ok () =>
-    match ← sys (.write p content) with
-    | .error e => pure (.error e)          -- the descriptor leaks; the empty file stays
-    | .ok () => sys (.close p)
+    let w ← sys (.write p content)
+    let c ← sys (.close p)
+    match w, c with
+    | .ok (), .ok () => pure (.ok ())
+    | _, .error e => do let _ ← sys (.unlink p); pure (.error e)
+    | .error e, .ok () => do let _ ← sys (.unlink p); pure (.error e)
 
 /-- body of `_rmtree_safe_fd`: children before parents, symlinks unlinked, first error raised -/
 def rmInner : Nat → CPath → Prog Res
